@@ -931,6 +931,11 @@ standardize() {
       result += "/" + components[i];
     }
   }
+  if (result.empty()) {
+    // Every component was backed up over (e.g. "a/.."): that names the current
+    // directory, not the empty filename, which names nothing.
+    result = ".";
+  }
 
   (*this) = result;
 }
